@@ -1,4 +1,6 @@
 import PMV.Lemmas.IndexEntries
+import PMV.Lemmas.IndexAssemble
+import PMV.Lemmas.IndexValid
 /-
   C09 — indexing reads exactly the selected elements; masked index entries mask results.
 -/
@@ -98,45 +100,157 @@ theorem scalar_index_exact (mask : Bool) (es : List Entry) :
 example : getitemScalar false [.none, .bool true true, .ell, .none] =
     some ⟨[1, 1], fun _ => [], .all true⟩ := by rw [scalar_index_exact]; rfl
 
+/-! ### end-to-end refinement for basic index tuples: `__getitem__` = `sel`
+
+`sel` (PMV/Lemmas/IndexSpec.lean) is the per-element specification: each entry is read against the
+axes that remain, an integer fixes a coordinate (flagged when masked / out of range), slices, single
+booleans, None and the Ellipsis produce axes.  The proof links `_prep_index`'s absolute `inlocs`
+bookkeeping to this progressive reading (`locs_progressive`, `prepLoop_prog`, `prepIndex_eq`), then
+shows entry by entry that the loop, NumPy's resolution of the prepared index and the specification
+agree (`agree_basic`), and finally assembles guards, the implicit Ellipsis, shape and source map. -/
+
+/-- **getitem_basic.**  Index tuples of None / Ellipsis / slices / integers (masked or out of range
+    included) / single booleans (masked included), ANY number of entries, ANY rank and shape, every
+    mask representation of the object: `__getitem__` raises IndexError exactly when the
+    specification rejects the index, and otherwise returns an object of the specified shape whose
+    every element is read from the specified source element and is masked iff that source element
+    is masked or a selecting entry is masked / out of range.
+    Hypothesis `hok`: no integer entry sits on an axis of length 0 (recorded defect KF-C09-1). -/
+theorem getitem_basic (shape : Shape) (mask : Mask) (es : List Entry)
+    (hb : es.all Entry.isBasic = true) :
+    (sel shape es = none → getitemShaped shape mask es = none) ∧
+    (∀ sp, sel shape es = some sp →
+      (∀ sats, selAtoms shape es = some sats → sats.all SAtom.ok = true) →
+      ∃ r, getitemShaped shape mask es = some r ∧ r.shape = sp.shape ∧
+        ∀ o, r.src o = sp.src o ∧ r.mask.bit o = (mask.bit (sp.src o) || sp.flag o)) := by
+  have hex := expand_basic es hb
+  by_cases hc : ellCountE es > 1
+  · -- two Ellipses
+    have hp : prepIndex shape es = none := by
+      unfold prepIndex; simp only [hex]
+      have : (es.filter Entry.isEll).length > 1 := hc
+      simp [this]
+    exact ⟨fun _ => getitemShaped_prep_none _ _ _ hp, fun sp h => by simp [sel, selAtoms, hc] at h⟩
+  have hc1 : ellCountE (expand es) ≤ 1 := by rw [hex]; omega
+  by_cases ht : totalAdvance es > shape.length
+  · -- more entries than axes
+    refine ⟨fun _ => ?_, fun sp h => by simp [sel, selAtoms, hc, ht] at h⟩
+    cases hany : es.any Entry.isEll with
+    | true =>
+      apply getitemShaped_prep_none
+      unfold prepIndex; simp only [hex]
+      have g1 : ¬ (es.filter Entry.isEll).length > 1 := hc
+      have g2 : (es.findIdx? Entry.isEll).isSome = true := by rw [List.findIdx?_isSome]; exact hany
+      simp [g1, g2, ht]
+    | false =>
+      have hpe := prepIndex_eq shape es hc1 (by rw [hex, hany]; intro h; cases h)
+      rw [hex] at hpe
+      cases hR : prog (shape.length - totalAdvance es) shape es (.all false) with
+      | none => exact getitemShaped_prep_none _ _ _ (by rw [hpe, hR])
+      | some x =>
+        obtain ⟨pre, post, shs⟩ := x
+        obtain ⟨i1, i2, i3, i4, i5⟩ := prog_image _ es hb _ _ _ _ _ hR
+        subst i1
+        simp only [hR, bcastAll] at hpe
+        refine getitemShaped_np_none _ _ _ _ hpe ?_
+        show npIndex shape pre = none
+        unfold npIndex
+        have : consTotal pre > shape.length := by omega
+        simp [this]
+  -- the main case
+  have ht' : totalAdvance es ≤ shape.length := by omega
+  generalize hw : shape.length - totalAdvance es = w
+  have hpe := prepIndex_eq shape es hc1 (by rw [hex]; intro _; exact ht')
+  rw [hex, hw] at hpe
+  -- the index with its (possibly implicit) Ellipsis
+  generalize hes' : (if es.any Entry.isEll then es else es ++ [.ell]) = es'
+  have hb' : es'.all Entry.isBasic = true := by
+    rw [← hes']; split
+    · exact hb
+    · simp [List.all_append, hb, Entry.isBasic]
+  have hsel : selAtoms shape es = specAtoms w shape es' := by
+    simp only [selAtoms, hc, ht, if_false, hw, hes']
+  obtain ⟨ag1, ag2⟩ := agree_basic w es' hb' shape (.all false)
+  have hprog' : prog w shape es' (.all false) =
+      (prog w shape es (.all false)).map fun x =>
+        (if es.any Entry.isEll then x.1 else x.1 ++ [NEntry.ell], x.2.1, x.2.2) := by
+    rw [← hes']
+    cases hany : es.any Entry.isEll with
+    | true => simp
+    | false => simp [prog_append_ell]
+  cases hR : prog w shape es (.all false) with
+  | none =>
+    -- `_prep_index` rejects the index: so does the specification
+    rw [hR] at hprog'
+    have hs := ag1 (by rw [hprog']; rfl)
+    refine ⟨fun _ => getitemShaped_prep_none _ _ _ (by rw [hpe, hR]), fun sp h => ?_⟩
+    simp [sel, hsel, hs] at h
+  | some x =>
+    obtain ⟨pre, post, shs⟩ := x
+    obtain ⟨i1, i2, i3, i4, i5⟩ := prog_image _ es hb _ _ _ _ _ hR
+    subst i1
+    rw [hR] at hprog'
+    simp only [Option.map_some] at hprog'
+    obtain ⟨a1, a2⟩ := ag2 _ _ _ hprog'
+    -- what `_prep_index` returns
+    have hnoarr : pre.findIdx? NEntry.isArr = none := by
+      rw [List.findIdx?_eq_none_iff]
+      intro p hp
+      have := List.all_eq_true.mp i5 p hp
+      simpa using this
+    have hidx : (if pre.any NEntry.isEll then pre else pre ++ [NEntry.ell]) =
+        (if es.any Entry.isEll then pre else pre ++ [NEntry.ell]) := by rw [i4]
+    have hwpre : shape.length - consTotal pre = w := by rw [i3]; exact hw
+    cases hS : specAtoms w shape es' with
+    | none =>
+      have hnp : npIndex shape pre = none := by
+        unfold npIndex
+        have g1 : ¬ ellCount pre > 1 := by rw [i2]; exact hc
+        have g2 : ¬ consTotal pre > shape.length := by rw [i3]; exact ht
+        simp only [g1, g2, if_false, hwpre, hidx, a1 hS]
+      refine ⟨fun _ => ?_, fun sp h => by simp [sel, hsel, hS] at h⟩
+      have hp : ∃ p, prepIndex shape es = some p ∧ p.pre = pre := by
+        rw [hpe, hR]; simp [bcastAll]
+      obtain ⟨p, hp1, hp2⟩ := hp
+      exact getitemShaped_np_none _ _ _ p hp1 (by rw [hp2]; exact hnp)
+    | some sats =>
+      obtain ⟨b1, b2⟩ := a2 sats hS
+      have harr := specAtoms_basic_arrShapes w es' hb' shape sats hS
+      obtain ⟨sp0, hsp0, hshape0, hsp0'⟩ := specOf_noarr sats harr
+      have hselsp : sel shape es = some sp0 := by simp [sel, hsel, hS, hsp0]
+      refine ⟨fun h => (by rw [hselsp] at h; cases h), fun sp h hok => ?_⟩
+      rw [hselsp] at h
+      cases h
+      have hok' := hok sats (by rw [hsel, hS])
+      have hat := b2 hok'
+      obtain ⟨s, hs1, hs2, hs3⟩ := npIndex_noarr shape pre sats (by rw [i2]; omega) (by rw [i3]; exact ht')
+        (by rw [hwpre, hidx]; exact hat) harr
+      have hp : prepIndex shape es = some ⟨pre, .all (SAtom.flag sats []), (es.findIdx? Entry.isEll).isSome, false, [], 0⟩ := by
+        rw [hpe, hR]
+        simp only [bcastAll, locate, hnoarr, b1, Bool.false_or]
+        cases SAtom.flag sats [] <;> simp [PostMask.all?]
+      obtain ⟨r, hr1, hr2, hr3⟩ := getitemShaped_noarr shape mask es pre _ _ s hp hs1
+      refine ⟨r, hr1, by rw [hr2, hs2, hshape0], fun o => ?_⟩
+      obtain ⟨q1, q2⟩ := hr3 o
+      obtain ⟨t1, t2⟩ := hsp0' o
+      exact ⟨by rw [q1, hs3, t1], by rw [q2, hs3, t1, t2]⟩
+
+/-- non-vacuity: `q[-1, ..., None, True]` on shape (3,4): accepted, no integer on an empty axis -/
+example : (sel [3, 4] [.int (-1) false, .ell, .none, .bool true false]).isSome = true ∧
+    ((selAtoms [3, 4] [.int (-1) false, .ell, .none, .bool true false]).map (·.all SAtom.ok)) = some true := by
+  constructor <;> rfl
+
 /-! ### the per-entry steps of `_prep_index` (indexer.py:343-495): replacement of masked and
     out-of-range entries by a safe index, and what each entry contributes to the post-mask -/
 /-- **integer entry.**  An unmasked in-range integer is handed to NumPy as the same element NumPy
     itself would pick (negative values normalised) and leaves the post-mask alone; a masked or
     out-of-range integer is replaced by the safe index 0 and masks the whole result. -/
-theorem int_entry_exact (n : Nat) (k : Int) (m : Bool) :
+theorem int_entry (n : Nat) (k : Int) (m : Bool) :
     (intFlag n k m = false →
       ∃ j, prepInt n k m = (.int j, .keep) ∧ normIdx n j = normIdx n k) ∧
-    (intFlag n k m = true → prepInt n k m = (.int 0, .setTrue)) := by
-  cases m with
-  | true => simp [intFlag, prepInt]
-  | false =>
-    by_cases h1 : 0 ≤ k ∧ k < n
-    · have e : k % (n:Int) = k := Int.emod_eq_of_lt h1.1 h1.2
-      have h0 : ¬ k < 0 := by omega
-      have h3 : ¬ (n:Int) ≤ k := by omega
-      constructor
-      · intro _; exact ⟨k, by simp [prepInt, h0, h3, e], rfl⟩
-      · intro h; simp [intFlag, normIdx, h1] at h
-    · by_cases h2 : k < 0 ∧ -k ≤ n
-      · have e : k % (n:Int) = k + n := by
-          have : k % (n:Int) = (k + n) % n := by simp
-          rw [this]; exact Int.emod_eq_of_lt (by omega) (by omega)
-        have h3 : ¬ (k + n < 0) := by omega
-        have h4 : ¬ ((n:Int) ≤ k + n) := by omega
-        constructor
-        · intro _
-          refine ⟨k + n, by simp [prepInt, h2.1, h3, h4, e], ?_⟩
-          have h5 : 0 ≤ k + (n:Int) ∧ k + n < n := by omega
-          simp [normIdx, h1, h2, h5]
-        · intro h; simp [intFlag, normIdx, h1, h2] at h
-      · constructor
-        · intro h; simp [intFlag, normIdx, h1, h2] at h
-        · intro _
-          by_cases h4 : k < 0
-          · have : k + n < 0 := by omega
-            simp [prepInt, h4, this]
-          · have : (n:Int) ≤ k := by omega
-            simp [prepInt, h4, this]
+    (intFlag n k m = true → prepInt n k m = (.int 0, .setTrue)) :=
+  int_entry_exact n k m
+
 /-- **integer-array entry** (the replacement step of `_prep_index`).  For every element `i` of the
     index array: (1) if it is neither masked nor out of range, NumPy is handed an index that selects
     the same source element as the original one; (2) its contribution to the post-mask is exactly
@@ -245,12 +359,21 @@ def postAt (post : PostMask) (ashape : Shape) (loc : Nat) (o : Index) : Bool :=
 
 /-- **mask_iff** (merge stage).  Whatever the representation of the object's mask (False, True,
     array) and of the post-mask (False, True, array — and whichever of the `np.any` / `np.all`
-    shortcuts is taken), a result element is masked iff its source element is masked or the
-    post-mask flags its array coordinate.  `hin`: the array coordinate of `o`, projected by
-    broadcasting, is an index of the post-mask array (true of every coordinate of the result). -/
-theorem mask_iff (mask : Mask) (post : PostMask) (s : Sel) (ashape : Shape) (loc : Nat) (o : Index)
-    (hin : ∀ pm, post = .arr pm → bidx pm.shape ((o.drop loc).take ashape.length) ∈ indices pm.shape) :
+    shortcuts is taken), an element of the result (`o` a valid coordinate of a result whose array
+    axes `ashape` stand at `loc`) is masked iff its source element is masked or the post-mask flags
+    its array coordinate.  The post-mask array only has to broadcast to the array shape. -/
+theorem mask_iff (mask : Mask) (post : PostMask) (s : Sel) (ashape pl : Shape) (loc : Nat) (o : Index)
+    (hshape : s.shape = pl.take loc ++ ashape ++ pl.drop loc) (hloc : loc ≤ pl.length)
+    (hv : Valid s.shape o)
+    (hb : ∀ pm, post = .arr pm → bcast pm.shape ashape = some ashape) :
     (mergeMask mask post s ashape loc).bit o = (mask.bit (s.src o) || postAt post ashape loc o) := by
+  have hin : ∀ pm, post = .arr pm →
+      bidx pm.shape ((o.drop loc).take ashape.length) ∈ indices pm.shape := by
+    intro pm hpm
+    rw [hshape] at hv
+    have hmid := valid_mid hv
+    simp only [List.length_take, Nat.min_eq_left hloc] at hmid
+    exact (mem_indices _ _).2 (bidx_valid (hb pm hpm) hmid)
   unfold mergeMask
   cases post with
   | all b =>
